@@ -61,6 +61,8 @@ CLAIMED.update({
                 ref='DESIGN.md §3 C11', note=NOTE + '; image length is a finite configuration set, not symbolic'),
     'C25': dict(text='two CPU instances (created in either order) and three, each with its own machine, alive in one process: one whole instruction of one instance (opcode = configuration) with every register/flag/memory/interrupt value of every instance symbolic: (1) all registers, scheduler fields, interrupt registers and every memory byte of the other instance(s) unchanged, (2) the stepped instance equals the reference SM83 (solo behaviour), (3) no package-level variable of any repository package written by the step; sequential interleavings follow by induction',
                 ref='DESIGN.md §3 C25', note=NOTE + '; flat memory stub per instance; concurrent stepping under the race detector is outside what this technique can encode'),
+    'C26': dict(text='package gameboy (pure-Go display/speakers stubs): the real 17556-iteration runFrame executed with a concrete count on a quiet machine with the divider phase symbolic: PC, divider, RTC sub-second count, APU clock and PPU frame index each advanced by exactly 17556 cycles, VBlank requested, timer interrupt iff overflow, display answer returned; an order probe program (LCD off/on and DIV clear at known cycles) pins "CPU first, then video ... then timer" within an iteration; Run with cancellation at the k-th poll and close request after the j-th frame (k, j symbolic 0..3): frames run, polls made, each attached output released exactly once',
+                ref='DESIGN.md §3 C26', note=NOTE + '; renderPixel is a no-op inside the frame loop; in the Run harness runFrame is abstracted to its return value'),
 })
 
 NA_REASON = {
